@@ -684,6 +684,15 @@ func runC14(c *Ctx) {
 				c.Res.OutOfModel++
 			}
 		}
+		// tie of the whole-document theorem (Codec/GobSafe.lean): whenever the driver finds the encoding before
+		// transport `GobSafe`, the encoding after transport must be the same JSON value
+		if c.Driver != "" && c.HasOp("gobsafe") && a.InModel() {
+			impl := "preserved"
+			if a.Canon() != b.Canon() {
+				impl = "changed"
+			}
+			c.CorrAs(map[string]interface{}{"op": "gobsafe", "doc": a.Wire()}, impl, "implies", cs, "C14:safe-document-changed")
+		}
 		if a.Canon() == b.Canon() {
 			c.Hit("ok")
 			return
